@@ -111,9 +111,10 @@ class Atomizer:
         full = _power((c, s), L, _cmul, _conj)
         if base.op == "atan2":
             y, x = self.rw(base.args[0]), self.rw(base.args[1])
-            rho = T.var("rho!t%d" % base.id)
-            self.axioms += [T.le(T.ZERO, rho), T.eq(T.mul(rho, rho), T.add(T.mul(x, x), T.mul(y, y))),
-                            T.eq(T.mul(full[0], rho), x), T.eq(T.mul(full[1], rho), y),
+            # the modulus is the same atom as sqrt(x^2+y^2) built by abs() on the same complex number
+            y0, x0 = base.args
+            rho = self.rw(T.sqrt(T.add(T.mul(x0, x0), T.mul(y0, y0))))
+            self.axioms += [T.eq(T.mul(full[0], rho), x), T.eq(T.mul(full[1], rho), y),
                             T.implies(T.eq(rho, T.ZERO), T.and_(T.eq(c, T.ONE), T.eq(s, T.ZERO)))]
             if L >= 2:
                 cl = self.rw(self.pi_const(Fraction(1, L))[0])
